@@ -12,24 +12,32 @@ const (
 	vRateParts = 1000000
 	// vMaxAmtSat: amount*1000 <= 2^63 (amounts up to 2^63 msat).
 	vMaxAmtSat uint64 = (1 << 63) / 1000
-	// vSafeAmtSat = floor((2^63-1)/10^6): below or at this amount the product with |rate| <= 10^6 fits int64.
+	// vSafeAmtSat = floor((2^63-1)/10^6): up to this amount the product with |rate| <= 10^6 fits int64.
 	vSafeAmtSat uint64 = 9223372036854
 )
 
 // The 128-bit reference uses math/bits.Mul64 / Div64 (natively the real functions, symbolically a
 // 128-bit bit-vector product / quotient: engine/symex/intrinsics_peersync.go).
 
-// vRefPremium is trunc(amt*rate/10^6) over the mathematical integers (128-bit product), for
-// |rate| <= 10^6 and amt < 2^63 (so the result fits int64).  When the exact product fits int64 the
-// quotient is, by the Go spec, the truncated int64 division of that product; otherwise it is obtained
-// by the 128-by-64 long division.
-func vRefPremium(amt uint64, rate int64) int64 {
-	neg := rate < 0
-	m := uint64(rate)
+// vRate draws a rate in [-10^6, 10^6] ppm as (magnitude, sign): every value of the interval is
+// produced by exactly the draws (|rate|, rate<0); -0 = 0.
+func vRate() (rate int64, mag uint64, neg bool) {
+	mag = zzverif.U64("rate_abs_ppm")
+	zzverif.Assume(mag <= vRateParts)
+	neg = zzverif.Bool("rate_negative")
+	rate = int64(mag)
 	if neg {
-		m = uint64(-rate)
+		rate = -rate
 	}
-	hi, lo := bits.Mul64(amt, m)
+	return
+}
+
+// vRefPremium is trunc(amt*rate/10^6) over the mathematical integers (128-bit product) for
+// rate = +/-mag, mag <= 10^6 and amt < 2^63 (so the result fits int64).  When the exact product fits
+// int64 the quotient is, by the Go spec, the truncated int64 division of that product; otherwise it
+// is obtained from the 128-by-64 division of the magnitude.
+func vRefPremium(amt uint64, mag uint64, neg bool) int64 {
+	hi, lo := bits.Mul64(amt, mag)
 	if hi == 0 && lo < 1<<63 {
 		zzverif.Reach("ref.product_fits_int64")
 		if neg {
@@ -37,8 +45,8 @@ func vRefPremium(amt uint64, rate int64) int64 {
 		}
 		return int64(lo) / vRateParts
 	}
-	zzverif.Reach("ref.product_needs_128_bits")
-	q, _ := bits.Div64(hi, lo, vRateParts) // hi < 2^10 in the stated region
+	zzverif.Reach("ref.product_needs_more_than_63_bits")
+	q, _ := bits.Div64(hi, lo, vRateParts) // hi < 2^10 < 10^6 in the stated region
 	if neg {
 		return -int64(q)
 	}
@@ -46,41 +54,50 @@ func vRefPremium(amt uint64, rate int64) int64 {
 }
 
 // H_C27_ppmCompute_safeRegion: for every amount <= 9 223 372 036 854 sat and every rate in
-// [-10^6, 10^6] ppm, PPM.Compute equals trunc(amount*rate/10^6) with the product taken in 128 bits
-// (no 64-bit wrap is possible there).  Bounds: none inside the stated region.
+// [-10^6, 10^6] ppm, the exact product fits int64 and PPM.Compute equals trunc(amount*rate/10^6).
+// Bounds: none inside the stated region.
 func H_C27_ppmCompute_safeRegion() {
-	amt, rate := zzverif.U64("amt_sat"), zzverif.I64("rate_ppm")
-	zzverif.Assume(amt <= vSafeAmtSat && rate >= -vRateParts && rate <= vRateParts)
+	amt := zzverif.U64("amt_sat")
+	zzverif.Assume(amt <= vSafeAmtSat)
+	rate, mag, neg := vRate()
 	got := NewPPM(rate).Compute(amt)
-	hi, lo := bits.Mul64(amt, uint64(vAbs(rate)))
+	hi, lo := bits.Mul64(amt, mag)
 	zzverif.Assert(hi == 0 && lo < 1<<63, "C27.safe_region_no_wrap")
-	zzverif.Assert(got == vRefPremium(amt, rate), "C27.compute_exact_safe_region")
-}
-
-func vAbs(x int64) int64 {
-	if x < 0 {
-		return -x
-	}
-	return x
+	zzverif.Assert(got == vRefPremium(amt, mag, neg), "C27.compute_exact_safe_region")
 }
 
 // H_C27_ppmCompute: the property as stated — all amounts with amount*1000 <= 2^63 (amount <= 2^63
 // msat), all rates within +/-10^6 ppm: PPM.Compute = trunc(amount*rate/10^6), product in 128 bits.
 func H_C27_ppmCompute() {
-	amt, rate := zzverif.U64("amt_sat"), zzverif.I64("rate_ppm")
-	zzverif.Assume(amt <= vMaxAmtSat && rate >= -vRateParts && rate <= vRateParts)
+	amt := zzverif.U64("amt_sat")
+	zzverif.Assume(amt <= vMaxAmtSat)
+	rate, mag, neg := vRate()
 	got := NewPPM(rate).Compute(amt)
-	zzverif.Assert(got == vRefPremium(amt, rate), "C27.compute_exact")
+	zzverif.Assert(got == vRefPremium(amt, mag, neg), "C27.compute_exact")
 }
 
 // H_C27_ppmCompute_minWitness: the smallest amount at which the 64-bit product wraps
 // (9 223 372 036 855 sat at +/-10^6 ppm; H_C27_ppmCompute_safeRegion shows nothing smaller exists).
 func H_C27_ppmCompute_minWitness() {
 	amt := vSafeAmtSat + 1
+	neg := zzverif.Bool("rate_negative")
 	rate := int64(vRateParts)
-	if zzverif.Bool("negative_rate") {
+	if neg {
 		rate = -rate
 	}
 	got := NewPPM(rate).Compute(amt)
-	zzverif.Assert(got == vRefPremium(amt, rate), "C27.compute_exact_min_witness")
+	zzverif.Assert(got == vRefPremium(amt, vRateParts, neg), "C27.compute_exact_min_witness")
+}
+
+// H_C27_ppmCompute_fitsInt64: characterisation of the defect region — for all amounts <= 2^63 msat
+// and all rates within +/-10^6 ppm, PPM.Compute is exact whenever amount*|rate| <= 2^63-1 (128-bit
+// product); every violation of H_C27_ppmCompute therefore has amount*|rate| >= 2^63.
+func H_C27_ppmCompute_fitsInt64() {
+	amt := zzverif.U64("amt_sat")
+	zzverif.Assume(amt <= vMaxAmtSat)
+	rate, mag, neg := vRate()
+	hi, lo := bits.Mul64(amt, mag)
+	zzverif.Assume(hi == 0 && lo < 1<<63)
+	got := NewPPM(rate).Compute(amt)
+	zzverif.Assert(got == vRefPremium(amt, mag, neg), "C27.compute_exact_when_product_fits")
 }
